@@ -15,7 +15,7 @@ def B : Addr → Behaviour TokState := fun _ => repoBehaviour
 def emptyTok : TokState := { kind := .minterBurner, bal := fun _ => 0, supply := 0, admin := fun _ => false }
 
 def fresh : St :=
-  { w := { enabled := true, pairs := fun _ => none, byErc20 := fun _ => none, byDenom := fun _ => none,
+  { w := { params := fun _ => true, pairs := fun _ => none, byErc20 := fun _ => none, byDenom := fun _ => none,
            bank := { bal := fun _ _ => 0, supply := fun _ => 0, blocked := fun a => a == moduleAddr, sendEnabled := fun _ => true },
            tok := fun _ => emptyTok, code := fun _ => false },
     accts := [], denoms := [], contracts := [] }
@@ -69,7 +69,9 @@ def dump (st : St) : String :=
       (match (w.byDenom d).bind w.pairs with
        | none => "-"
        | some p => p.addr))
-  (if w.enabled then "E1" else "E0") ++ " " ++ joinWith " " (toks ++ dens)
+  (if w.enabled then "E1" else "E0") ++ (if w.evmHook then "H1" else "H0") ++
+    "K" ++ (if w.params keyEnableAggregate then "1" else "0") ++ (if w.params keyEnableEVMHook then "1" else "0") ++
+    " " ++ joinWith " " (toks ++ dens)
 
 def setPair (w : World TokState) (p : Pair) : World TokState :=
   match p.id? with
@@ -147,6 +149,10 @@ def step (st : St) (line : String) : St × String :=
       let okk := !(!b.sendEnabled d || b.blocked t) && (b.send s t d amt).isOk
       ({ st with w := Convert.step B st.w (.bankSend s t d amt) }, if okk then "ok" else "err")
     | _, _ => bad
+  | ["gov", k, b] =>
+    match str? k with
+    | some k => ({ st with w := Convert.step B st.w (.setParamByKey k (bit b)) }, "ok")
+    | none => bad
   | ["params", b] => ({ st with w := Convert.step B st.w (.setEnabled (bit b)) }, "ok")
   | ["toggle", t] =>
     match str? t with
